@@ -27,6 +27,8 @@ func Run(o *drv.Out) {
 	CorpusStaleBlockHash(o, true)
 	CorpusLockedAtRootBoundary(o, 10)
 	CorpusLockedAtRootBoundary(o, 9)
+	CorpusPlantedPartialQC(o, []int{1}, true)
+	CorpusPlantedPartialQC(o, []int{1, 2}, false)
 	CorpusLockSurvivesCommitteeChange(o)
 	CorpusOldRootLockVsNewRootLock(o, 4, []int{0}, []int{1})
 	CorpusOldRootLockVsNewRootLock(o, 7, []int{0, 6}, []int{1, 2})
@@ -163,13 +165,16 @@ func timedCase(o c01.Sink, rng *rand.Rand, tier string, k int) caseStats {
 	if rng.Intn(2) == 0 { // root height 11 lists the same committee in another order
 		cfg.CommitteeOrder = map[uint64][]int{11: rng.Perm(n)}
 	}
-	r := c01.NewRun(o, fmt.Sprintf("timed/%d/%s/n%d/byz%v", k, style, n, byz), cfg)
+	r := newRun(o, fmt.Sprintf("timed/%d/%s/n%d/byz%v", k, style, n, byz), cfg)
 	s := r.Sim()
 	t := &timed{r: r, s: s, o: o, rng: rng, style: style, delta: int64(20 + rng.Intn(200)),
 		next: make([]int64, n), roundStart: make([]int64, n),
 		named: map[bftsim.VR]map[int]int{}, judged: map[bftsim.VR]bool{}, proposal: map[bftsim.VR]string{}, lastOff: map[bftsim.VR]int64{},
 		firstGood: -1, commitRound: -1, byzOldPropose: map[int]*bft.Message{}, sentAttack: map[string]bool{}}
 	o.Count("style:" + style)
+	if t.plant = rng.Intn(2) == 0; t.plant {
+		o.Count("byz-extra:plant-partial-qc")
+	}
 	o.Count(fmt.Sprintf("lrhu:%d", lrhu))
 	o.Count(fmt.Sprintf("n:%d", n))
 	// the adversarial prefix: replicas start at different times, the network loses, delays and partitions
@@ -436,10 +441,21 @@ func (t *timed) fireByz(i int) {
 			}
 		}
 	}
+	view := bftsim.VR{Root: b.RootHeight, Round: roundBefore}
+	// plant-partial-qc: once the round's PROPOSE_VOTE certificate may exist, hand every correct replica a leader-style
+	// PRECOMMIT message whose certificate has that view, another payload and only this validator's signature (any
+	// validator can: it is filed as a partial QC before the sender is compared with the leader)
+	if key := fmt.Sprintf("plant/%s/%d", view, i); t.plant && (before == bft.Precommit || before == bft.PrecommitVote) && !t.sentAttack[key] &&
+		len(hon) > 0 && (t.now < t.gst || t.style == "attack") {
+		t.sentAttack[key] = true
+		s.ByzPlantPartialQC(i, view, lib.Phase_PROPOSE_VOTE, hon)
+		t.r.Flush()
+		t.r.Log("byz %d plants a partial PROPOSE_VOTE certificate for view %s (another payload, its own signature only) on %v", i, view, hon)
+		t.o.Count("byz:plant-partial-qc")
+	}
 	if t.style != "attack" && t.style != "spam" {
 		return
 	}
-	view := bftsim.VR{Root: b.RootHeight, Round: roundBefore}
 	// L4: pacemaker spam
 	if t.rng.Intn(4) == 0 {
 		s.ByzPacemaker(i, b.RootHeight, uint64(1000+t.rng.Intn(1_000_000)), hon)
